@@ -174,7 +174,10 @@ where
         // handle the connection in its own task, such that a slow client never blocks the listener
         self.tracker.spawn(async move {
             // the proxy protocol header is part of the connection and subject to its timeout
-            let deadline = connection_start + connection_timeout;
+            // a timeout too large to be added to the start ("never") is as good as thirty years
+            let deadline = connection_start
+                .checked_add(connection_timeout)
+                .unwrap_or_else(|| connection_start + Duration::from_secs(86400 * 365 * 30));
             let (mut stream, client_addr) = if let Some(proxy_config) = proxy_protocol {
                 let proxied = timeout_at(
                     deadline,
